@@ -83,8 +83,13 @@ def run(ctx):
     seqs = [["S", "s", "R", "r", "S", "Rx", "R", "Sx", "S", "s", "r", "as", "S", "ar", "fs"],
             ["R", "Sx", "S", "R", "r", "s", "S", "as", "fs", "R", "ar", "fr", "S", "R", "s", "r"],
             ["Sx", "R", "Rx", "s", "R", "S", "r", "s"]]
+    # forced removal on behalf of a dead peer whose role is NOT attached (the peer died before it attached, or a second
+    # cleaner repeats the removal): nothing may change - no phantom port, the role stays attachable, the last real port
+    # still destroys the resource (seeded change C13/4: remove_state toggled the role bit)
+    seqs_forced = [["R", "fs", "S", "s", "r"], ["S", "fr", "fr", "R", "r", "s"], ["S", "as", "fs", "fs", "R", "S", "s", "r"],
+                   ["R", "ar", "fr", "fr", "fs", "S", "R", "r", "s"]]
     for st in (["local", "shm"] if not q else ["local", "shm"]):
-        for n, p in enumerate(seqs if not q else seqs[:2]):
+        for n, p in enumerate((seqs if not q else seqs[:2]) + seqs_forced):
             trace, summ = drv(ctx, ["--storage", st, "--prog", json.dumps([p]), "--mode", "seq"], f"seq-{st}-{n}")
             ctx.evaluations += 1
             bv.add(trace, (f"sequential {st} {p}", summ), 1)
